@@ -42,8 +42,15 @@ Example C02_example :
     Ok (hdr ++ [41; 3; 78; 218; 2; 97; 98; 41; 2; 114; 0; 0; 0; 0; 114; 0; 0; 0; 0], true).
 Proof. vm_compute. reflexivity. Qed.
 
+(* the regenerated magic-number table classifies the first and last magic of every release series as CPython's
+   history does (version and header length): in particular 3230 is Python 3.3 and 3250 is 3.4, 3379 has a
+   12-byte and 3390 a 16-byte header *)
+Theorem C02_release_magics : forallb release_row_ok release_magics = true.
+Proof. exact release_magics_classified. Qed.
+
 Print Assumptions C02_header_unchanged_partial.
 Print Assumptions C02_output_depends_on_tree_only_partial.
 Print Assumptions C02_old_versions_untouched.
 Print Assumptions C02_skip_bound.
 Print Assumptions C02_example.
+Print Assumptions C02_release_magics.
